@@ -61,9 +61,10 @@ type Env struct {
 	ConnFaults []*ConnFault
 	ZK         *ZK
 	Dials      []*DialRec
-	DialFaults map[int]string // dial ordinal (1-based) -> error text
-	DialDelay  time.Duration  // every dial takes this long (and honours its context)
-	Stall      map[int]int    // server index -> window in bytes: the server does not read; writes block once the window is full
+	DialFaults map[int]string        // dial ordinal (1-based) -> error text
+	DialDelay  time.Duration         // every dial takes this long (and honours its context)
+	Slow       map[int]time.Duration // server index -> service time: a request is executed no earlier than this long after it arrived
+	Stall      map[int]int           // server index -> window in bytes: the server does not read; writes block once the window is full
 
 	// counters usable as fault triggers
 	NExec, NFrames, NDeliver, NDials int
@@ -110,7 +111,7 @@ type Stats struct {
 
 func NewEnv(seed uint64, c *hb.Cluster) *Env {
 	e := &Env{Seed: seed, Rng: rng.New(rng.Derive(seed, 1)), C: c, Knobs: DefaultKnobs(), digest: sha256.New(),
-		DialFaults: map[int]string{}, Stall: map[int]int{}, frozenCh: make(chan struct{})}
+		DialFaults: map[int]string{}, Stall: map[int]int{}, Slow: map[int]time.Duration{}, frozenCh: make(chan struct{})}
 	e.Stats.FaultKinds = map[string]int{}
 	e.Stats.Probes = map[string]int{}
 	e.ZK = &ZK{env: e}
@@ -292,6 +293,12 @@ func (e *Env) step(done func() bool, idleFor *time.Duration) (reason string, sle
 		// nothing to do but let time pass - at most until the next fault that
 		// is due at a given time
 		sleep := e.Knobs.MaxIdle
+		// ... or until a slow server gets round to its next request
+		for _, c := range e.Conns {
+			if d, ok := c.nextService(); ok && d < sleep {
+				sleep = d
+			}
+		}
 		for _, f := range e.Faults {
 			if !f.Fired && f.On == "ms" {
 				if d := ms(f.N) - e.Now(); d > 0 && d < sleep {
